@@ -59,7 +59,26 @@ func c14NewHandler() *c14Handler {
 
 type c14Broker struct {
 	*MemoryBroker
-	h *c14Handler
+	h    *c14Handler
+	mu   sync.Mutex
+	hist map[string]*[2]func() // channel -> publishes before / after the history read of the next subscribe
+}
+
+// publications made around the history read of a recovering subscribe reach the client's subscribe
+// buffer (it already is in the hub) and are merged with the history into the reply
+func (b *c14Broker) History(ch string, opts HistoryOptions) ([]*Publication, StreamPosition, error) {
+	b.mu.Lock()
+	w := b.hist[ch]
+	delete(b.hist, ch)
+	b.mu.Unlock()
+	if w != nil && w[0] != nil {
+		w[0]()
+	}
+	pubs, sp, err := b.MemoryBroker.History(ch, opts)
+	if w != nil && w[1] != nil {
+		w[1]()
+	}
+	return pubs, sp, err
 }
 
 func (b *c14Broker) RegisterBrokerEventHandler(h BrokerEventHandler) error {
@@ -69,7 +88,30 @@ func (b *c14Broker) RegisterBrokerEventHandler(h BrokerEventHandler) error {
 
 type c14MapBroker struct {
 	*MemoryMapBroker
-	h *c14Handler
+	h    *c14Handler
+	node *Node
+	mu   sync.Mutex
+	win  map[string]*[2]func() // channel -> writer operations before / after the stream read of a live transition
+}
+
+// the stream read made while the client already is in the hub is the live transition's read: writer
+// operations placed around it land in the subscribe buffer
+func (b *c14MapBroker) ReadStream(ctx context.Context, ch string, opts MapReadStreamOptions) (MapStreamResult, error) {
+	var w *[2]func()
+	if opts.Filter.Limit != 0 && b.node.hub.NumSubscribers(ch) > 0 {
+		b.mu.Lock()
+		w = b.win[ch]
+		delete(b.win, ch)
+		b.mu.Unlock()
+	}
+	if w != nil && w[0] != nil {
+		w[0]()
+	}
+	res, err := b.MemoryMapBroker.ReadStream(ctx, ch, opts)
+	if w != nil && w[1] != nil {
+		w[1]()
+	}
+	return res, err
 }
 
 func (b *c14MapBroker) RegisterEventHandler(h BrokerEventHandler) error {
@@ -112,13 +154,13 @@ func c14NewEnv(t *testing.T) *c14Env {
 	if err != nil {
 		t.Fatal(err)
 	}
-	e.sb = &c14Broker{MemoryBroker: mb, h: c14NewHandler()}
+	e.sb = &c14Broker{MemoryBroker: mb, h: c14NewHandler(), hist: map[string]*[2]func(){}}
 	node.SetBroker(e.sb)
 	mmb, err := NewMemoryMapBroker(node, MemoryMapBrokerConfig{})
 	if err != nil {
 		t.Fatal(err)
 	}
-	e.mb = &c14MapBroker{MemoryMapBroker: mmb, h: c14NewHandler()}
+	e.mb = &c14MapBroker{MemoryMapBroker: mmb, h: c14NewHandler(), node: node, win: map[string]*[2]func(){}}
 	node.SetMapBroker(e.mb)
 	node.OnConnect(func(client *Client) {
 		client.OnSubscribe(func(ev SubscribeEvent, cb SubscribeCallback) {
@@ -589,7 +631,7 @@ func (s *c14Scn) runPositioned(filtered bool, histSize int, n int, forced []int)
 	if histSize < 50 {
 		class += "+trim"
 	}
-	sawRecover, sawLoss := false, false
+	sawRecover, sawLoss, sawWindow := false, false, false
 	if forced != nil {
 		n = len(forced)
 	}
@@ -611,6 +653,38 @@ func (s *c14Scn) runPositioned(filtered bool, histSize int, n int, forced []int)
 			case x < 14 && len(stream) > 0:
 				act = 1 // redeliver
 			}
+		}
+		// a publish inside the window of a recovering subscribe: buffered by the client, merged into the reply
+		windowPub := func() {
+			data := s.genPayload(prevPayload)
+			prevPayload = data
+			vis := !filtered || s.r.Intn(3) != 0
+			ud := s.r.Intn(8) != 0
+			tags := c14TagsVis
+			if !vis {
+				tags = c14TagsHid
+			}
+			pid := s.tab.id(data)
+			s.payloads = append(s.payloads, pid)
+			res, err := s.e.node.Publish(s.ch, data, WithHistory(histSize, time.Hour), WithDelta(ud), WithTags(tags))
+			if err != nil {
+				s.bad = "publish: " + err.Error()
+				return
+			}
+			if len(stream) > 0 {
+				s.pair(stream[len(stream)-1], pid)
+			}
+			s.pair(lastVis, pid)
+			if vis {
+				lastVis = pid
+			}
+			stream = append(stream, pid)
+			if res.Offset != uint64(len(stream)) {
+				s.bad = fmt.Sprintf("unexpected offset %d", res.Offset)
+			}
+			sawWindow = true
+			s.script = append(s.script, vApp("PPub", "_", vApp("mkSP", "_", vN(pid), vBool(vis), vBool(ud)), "true"))
+			s.jscript = append(s.jscript, fmt.Sprintf("pub off=%d payload=%d vis=%v use_delta=%v (inside the subscribe window)", res.Offset, pid, vis, ud))
 		}
 		switch act % 10 {
 		case 0: // publish
@@ -685,8 +759,28 @@ func (s *c14Scn) runPositioned(filtered bool, histSize int, n int, forced []int)
 				top := uint64(len(stream))
 				avail = cpos+uint64(histSize) >= top
 				sawRecover = true
+				if forced == nil && histSize >= 100 && len(stream) < 60 && s.r.Intn(2) == 0 {
+					nb, na := s.r.Intn(3), s.r.Intn(3)
+					s.e.sb.mu.Lock()
+					s.e.sb.hist[s.ch] = &[2]func(){
+						func() {
+							for j := 0; j < nb; j++ {
+								windowPub()
+							}
+						},
+						func() {
+							for j := 0; j < na; j++ {
+								windowPub()
+							}
+						},
+					}
+					s.e.sb.mu.Unlock()
+				}
 			}
 			res, perr := s.subscribeRaw(req)
+			s.e.sb.mu.Lock()
+			delete(s.e.sb.hist, s.ch)
+			s.e.sb.mu.Unlock()
 			if res == nil {
 				s.bad = fmt.Sprintf("subscribe failed: %v", perr)
 				break
@@ -736,6 +830,9 @@ func (s *c14Scn) runPositioned(filtered bool, histSize int, n int, forced []int)
 	}
 	if sawLoss {
 		class += "+loss"
+	}
+	if sawWindow {
+		class += "+window"
 	}
 	return class
 }
@@ -1053,6 +1150,238 @@ func (s *c14Scn) runMap(filtered bool, n int, forced []int) string {
 	return class
 }
 
+// ---------------------------------------------------------------- map channel, paginated subscribe
+
+// A delta subscriber joins a map channel over several state pages, stream pages and a live transition
+// while writers keep publishing / removing (between the requests and inside the transition's subscribe
+// window); then live broadcasts with per-key deltas.
+func (s *c14Scn) runMapPaged(n int) string {
+	s.setSubOpts(SubscribeOptions{Type: SubscriptionTypeMap, AllowedDeltaTypes: []DeltaType{DeltaTypeFossil}})
+	ctx := context.Background()
+	state := map[int]uint64{}
+	byOffset := map[uint64]uint64{}
+	prevByKey := map[int][]byte{}
+	keyHist := map[int][]uint64{}
+	const nkeys = 5
+	mp := func(key int, pid uint64, removed, ud bool) string {
+		return vApp("mkMP", "_", vNat(key), vOpt(vN(pid), !removed), "true", vBool(ud))
+	}
+	// one writer operation; live: it is broadcast to the subscribed client and observed
+	write := func(live bool) {
+		key := s.r.Intn(nkeys)
+		_, exists := state[key]
+		remove := exists && s.r.Intn(6) == 0
+		var term string
+		if remove {
+			res, err := s.e.mb.Remove(ctx, s.ch, fmt.Sprintf("k%d", key), MapRemoveOptions{})
+			if err != nil || res.Suppressed {
+				s.bad = fmt.Sprintf("remove: %v", err)
+				return
+			}
+			delete(state, key)
+			delete(prevByKey, key)
+			term = mp(key, 0, true, false)
+			s.jscript = append(s.jscript, fmt.Sprintf("  remove key=%d off=%d live=%v", key, res.Position.Offset, live))
+		} else {
+			data := s.genPayload(prevByKey[key])
+			prevByKey[key] = data
+			ud := s.r.Intn(8) != 0
+			pid := s.tab.id(data)
+			s.payloads = append(s.payloads, pid)
+			for _, x := range keyHist[key] {
+				s.pair(x, pid)
+			}
+			keyHist[key] = append(keyHist[key], pid)
+			res, err := s.e.mb.Publish(ctx, s.ch, fmt.Sprintf("k%d", key), MapPublishOptions{Data: data, UseDelta: ud})
+			if err != nil || res.Suppressed {
+				s.bad = fmt.Sprintf("map publish: %v", err)
+				return
+			}
+			state[key] = pid
+			byOffset[res.Position.Offset] = pid
+			term = mp(key, pid, false, ud)
+			s.jscript = append(s.jscript, fmt.Sprintf("  publish key=%d off=%d payload=%d use_delta=%v live=%v", key, res.Position.Offset, pid, ud, live))
+		}
+		if !live {
+			s.script = append(s.script, vApp("QWrite", "_", term))
+			return
+		}
+		s.script = append(s.script, vApp("QPush", "_", term))
+		got := s.drain()
+		if len(got.pubs) != 1 {
+			s.bad = fmt.Sprintf("%d pushes for one live map publication", len(got.pubs))
+		}
+		for _, p := range got.pubs {
+			var k int
+			_, _ = fmt.Sscanf(p.Key, "k%d", &k)
+			if p.Removed {
+				s.clientRemove(k)
+				continue
+			}
+			s.clientPush(k, p.Delta, p.Data, byOffset[p.Offset], "map-paged/live")
+		}
+	}
+	pubsTerm := func(ps []*protocol.Publication) string {
+		xs := make([]string, len(ps))
+		for i, p := range ps {
+			var k int
+			_, _ = fmt.Sscanf(p.Key, "k%d", &k)
+			xs[i] = mp(k, byOffset[p.Offset], p.Removed, false)
+		}
+		return vList(xs)
+	}
+	feedPubs := func(ps []*protocol.Publication, where string) {
+		for _, p := range ps {
+			var k int
+			_, _ = fmt.Sscanf(p.Key, "k%d", &k)
+			if p.Removed {
+				s.clientRemove(k)
+				continue
+			}
+			s.clientPush(k, p.Delta, p.Data, byOffset[p.Offset], where)
+		}
+	}
+	class := "map-paged"
+	sawPages, sawStream, sawWindow := false, false, false
+	rounds := 1 + s.r.Intn(2)
+	for round := 0; round < rounds && s.bad == ""; round++ {
+		for j := 2 + s.r.Intn(6); j > 0; j-- {
+			write(false)
+		}
+		limit := int32(1 + s.r.Intn(3))
+		phase := MapPhaseState
+		var cursor, epoch string
+		var offset uint64
+		first := true
+		npages := 0
+		live := false
+		for iter := 0; iter < 60 && s.bad == "" && !live; iter++ {
+			req := &protocol.SubscribeRequest{Channel: s.ch, Type: int32(SubscriptionTypeMap), Delta: string(DeltaTypeFossil), Phase: phase, Limit: limit}
+			if !first {
+				req.Cursor, req.Offset, req.Epoch = cursor, offset, epoch
+			}
+			// entries of a state page are read before anything of this request's window happens
+			atRead := map[int]uint64{}
+			for k, v := range state {
+				atRead[k] = v
+			}
+			nb, na := 0, 0
+			switch s.r.Intn(3) {
+			case 1:
+				nb = 1 + s.r.Intn(2)
+			case 2:
+				nb, na = s.r.Intn(2), 1+s.r.Intn(2)
+			}
+			fired := false
+			s.e.mb.mu.Lock()
+			s.e.mb.win[s.ch] = &[2]func(){
+				func() {
+					for j := 0; j < nb; j++ {
+						write(false)
+						fired = true
+					}
+				},
+				func() {
+					for j := 0; j < na; j++ {
+						write(false)
+						fired = true
+					}
+				},
+			}
+			s.e.mb.mu.Unlock()
+			s.jscript = append(s.jscript, fmt.Sprintf("request phase=%d cursor=%q offset=%d", phase, cursor, offset))
+			res, perr := s.subscribeRaw(req)
+			s.e.mb.mu.Lock()
+			delete(s.e.mb.win, s.ch)
+			s.e.mb.mu.Unlock()
+			if res == nil {
+				s.bad = fmt.Sprintf("paged map subscribe failed: %v", perr)
+				break
+			}
+			if fired {
+				sawWindow = true
+			}
+			if first {
+				s.script = append(s.script, vApp("QStart", "_"))
+				s.clientReset()
+			}
+			if phase == MapPhaseState {
+				npages++
+				var es []string
+				for _, p := range res.State {
+					var k int
+					_, _ = fmt.Sscanf(p.Key, "k%d", &k)
+					es = append(es, vPair(vNat(k), vN(atRead[k])))
+					s.clientPush(k, p.Delta, p.Data, atRead[k], "map-paged/state")
+				}
+				s.script = append(s.script, vApp("QPage", "_", vList(es)))
+			}
+			switch {
+			case res.Phase == MapPhaseLive:
+				if !res.Delta {
+					s.bad = "delta not negotiated"
+				}
+				s.script = append(s.script, vApp("QLive", "_", pubsTerm(res.Publications)))
+				feedPubs(res.Publications, "map-paged/transition")
+				live = true
+			case res.Phase == MapPhaseStream && phase == MapPhaseStream:
+				sawStream = true
+				s.script = append(s.script, vApp("QStream", "_", pubsTerm(res.Publications)))
+				feedPubs(res.Publications, "map-paged/stream")
+			}
+			s.jscript = append(s.jscript, fmt.Sprintf("  -> phase=%d state=%d pubs=%d offset=%d", res.Phase, len(res.State), len(res.Publications), res.Offset))
+			if live {
+				break
+			}
+			if first {
+				epoch, offset, first = res.Epoch, res.Offset, false
+			}
+			if phase == MapPhaseState {
+				cursor = res.Cursor
+				if cursor == "" {
+					phase = MapPhaseStream
+					offset = res.Offset
+				}
+			} else {
+				offset = res.Offset
+			}
+			nw := s.r.Intn(3)
+			if s.r.Intn(4) == 0 {
+				nw = 3 + s.r.Intn(5)
+			}
+			for j := 0; j < nw; j++ {
+				write(false)
+			}
+		}
+		if !live {
+			if s.bad == "" {
+				s.bad = "paged map subscription did not go live"
+			}
+			break
+		}
+		if npages > 1 {
+			sawPages = true
+		}
+		for j := 0; j < n && s.bad == ""; j++ {
+			write(true)
+		}
+		if round+1 < rounds {
+			s.unsubscribe()
+			s.jscript = append(s.jscript, "unsubscribe")
+		}
+	}
+	if sawPages {
+		class += "+pages"
+	}
+	if sawStream {
+		class += "+stream"
+	}
+	if sawWindow {
+		class += "+window"
+	}
+	return class
+}
+
 // ---------------------------------------------------------------- probes (which variant of the code is in the tree)
 
 func (e *c14Env) probe() {
@@ -1099,9 +1428,9 @@ func TestVerifC14(t *testing.T) {
 		}
 		s.fixedPayloads = i <= 2
 		s.connect()
-		kind := i % 12
-		if i >= 24 {
-			kind = r.Intn(12)
+		kind := i % 14
+		if i >= 28 {
+			kind = r.Intn(14)
 		}
 		var class, scen string
 		n := 6 + r.Intn(14)
@@ -1126,6 +1455,9 @@ func TestVerifC14(t *testing.T) {
 			keep := kind != 4
 			class = s.runUnpositioned(keep, r.Intn(2) == 0, n)
 			scen = vApp("ScU", vBool(keep), vList(s.script))
+		case kind >= 12:
+			class = s.runMapPaged(3 + r.Intn(8))
+			scen = vApp("ScQ", vList(s.script))
 		default:
 			filtered := kind >= 10
 			class = s.runMap(filtered, n, nil)
